@@ -505,7 +505,9 @@ func (vm *Type) Run(retResult bool) (value.Type, error) {
 
 		case bytecode.READ:
 			line, err := stdin.ReadString('\n')
-			if err != nil {
+			// a last line without a line break arrives together with io.EOF,
+			// it is a line of the input like any other
+			if err != nil && line == "" {
 				return vm.dumpStack(ctxp, ip, fmt.Errorf("read error %w", err))
 			}
 			m.Push(value.NewString(line))
